@@ -388,7 +388,7 @@ def make_env(case, tmpdir):
         loader = jinja2.DictLoader(dict(case["templates"]))
     env = jinja2.Environment(loader=loader, undefined=jinja2.StrictUndefined,
                              extensions=["jinja2.ext.do", "jinja2.ext.i18n"], enable_async=case["mode"] == "async",
-                             cache_size=0, **kw)
+                             cache_size=50, auto_reload=False, **kw)
     env.install_null_translations()
     env.globals.update(nsg=jinja2.utils.Namespace(), boom=boom, ident=lambda v: v, obj=Obj(), objitem=ObjItem(), zero=0, items=[1, 2])
     env.filters["boomf"] = boom
